@@ -122,6 +122,9 @@ def run(ctx):
                 break
             rng = gen.rng_for('C07rand', ctx.seed, ctx.shard, k)
             state, area, cat = obsgen.rand_case(rng)
+            if k % 4 == 3:
+                state = obsgen.history_state(rng)  # reached through the real dynamics; rotated copies are freshly built
+                ctx.hit('history_states')
             for name in obsgen.DETERMINISTIC:
                 if obsgen.supported(name, area):
                     compare(ctx, state, area, name, via_vis=rng.random() < 0.3)
